@@ -171,6 +171,9 @@ func VerifC07Install(c *VerifC07Coordinator) {
 			for t, ps := range r.blocks {
 				for p, blk := range ps {
 					off, code := c.OnListOffsets(t, p, blk.time)
+					if code == VerifC07DropCode {
+						return verifC07Drop{}
+					}
 					res.AddTopicPartition(t, p, off)
 					res.Blocks[t][p].Err = KError(code)
 				}
